@@ -279,7 +279,8 @@ def run(ctx):
             n = rng.randint(2, 4)
             cspec = cases.gen_continuum(rng, n_annot=n, max_units=5, labels=labels, allow_empty=False,
                                         family=rng.choice(["grid", "dyadic", "touching", "identical"]))
-        case = {"type": "gamma", "continuum": cspec, "dissim": dspec, "n_samples": rng.randint(2, 6),
+        case = {"type": "gamma", "continuum": cspec, "dissim": dspec,
+                "n_samples": rng.randint(2, 6) if i % 4 else rng.choice([70, 80, 100, 130]),   # also beyond any batch size
                 "np_seed": rng.randrange(2 ** 31), "sampler": rng.choice([None, "shuffle"]),
                 "soft": rng.random() < 0.25, "agreeing": agreeing}
         ctx.begin_case(case)
